@@ -45,7 +45,7 @@ def c04_sweep(ctx, n):
         cls = CLASSES[i % len(CLASSES)]
         src = make(cls, nps)
         m = rng.choice([1, 2, 3])
-        kind = rng.choice(["static", "translating", "rotating", "negquat"])
+        kind = rng.choice(["static", "translating", "rotating", "negquat", "mirrored"])
         pos = far_points(nps, m, lo=5, hi=8)
         if kind == "static":
             pos, ori = pos[:1], R.random(rng=nps)
@@ -53,6 +53,12 @@ def c04_sweep(ctx, n):
             ori = R.random(rng=nps)
         elif kind == "negquat":
             pos, ori = pos[:1], R.from_quat([0, 0, 0, -1.0])
+        elif kind == "mirrored":  # orientations whose quaternions differ only in the signs of components
+            a = nps.uniform(0.2, 1.2)
+            ax = np.eye(3)[rng.randrange(3)]
+            m = max(m, 2)
+            pos = far_points(nps, m, lo=5, hi=8)
+            ori = R.from_rotvec([ax * a * (-1) ** j for j in range(m)])
         else:
             ori = R.random(m, rng=nps)
         shape = rng.choice([None, (3,), (2, 3), (2, 2, 3), (1, 3, 3)])
@@ -150,6 +156,36 @@ def c05_sweep(ctx, n):
         if not ok:
             fails.append({"key": "superposition", "desc": "collection / sumup result differs from the explicit sum of single-source calls",
                           "replay": {"entries": [repr(e) for e in entries], "field": field}})
+        # the tree is edited between calls: the collection's field must follow its *current* tree
+        if i % 2 == 0:
+            inner = magpy.Collection(make(rng.choice(CLASSES), nps), make(rng.choice(CLASSES), nps))
+            outer = magpy.Collection(inner, make(rng.choice(CLASSES), nps))
+            get(outer, obs)
+            _ = outer.sources_all
+            extra = make(rng.choice(CLASSES), nps)
+            for step in ("add", "remove", "reparent"):
+                if step == "add":
+                    inner.add(extra)
+                elif step == "remove":
+                    inner.remove(inner.children[0])
+                else:
+                    extra.parent = outer
+                cur = []
+
+                def walk(c):
+                    for x in c.children:
+                        if isinstance(x, magpy.Collection):
+                            walk(x)
+                        elif not isinstance(x, magpy.Sensor):
+                            cur.append(x)
+
+                walk(outer)
+                exp = sum(get(x, obs) for x in cur)
+                got = get(outer, obs)
+                if not _close(got, exp, float(np.max(np.abs(exp))) + 1e-300, 1e-7):
+                    fails.append({"key": f"superposition-after-edit:{step}", "desc": f"after {step} in a nested collection the outer collection's field is not the sum over its current tree",
+                                  "replay": {"step": step, "field": field}})
+                    break
         # linearity in excitation
         cls = CLASSES[i % len(CLASSES)]
         a, b = nps.uniform(-3, 3), 10.0 ** nps.uniform(-6, 6)
@@ -180,10 +216,46 @@ def c06_sweep(ctx, n):
         srcs = [make(base if rng.random() < 0.6 else rng.choice(CLASSES), nps, path=rng.choice([1, 1, 2, 3])) for _ in range(ns)]
         if rng.random() < 0.3 and ns > 1:
             srcs.append(srcs[0])  # duplicate
+        inside_pts = []
+        force_mesh = i % 5 == 0
+        if force_mesh or rng.random() < 0.5:
+            # several bodies of the SAME geometry with different polarization / pose, observers inside them
+            from oracles.sources import MAGNETS
+            mcls = "TriangularMesh" if force_mesh else rng.choice(MAGNETS)
+            proto = make(mcls, nps)
+            srcs = []
+            for j in range(rng.choice([2, 3, 4])):
+                c = proto.copy(polarization=nps.uniform(-1, 1, 3), position=(4.0 * j, 0, 0))
+                srcs.append(c)
+                centre = np.asarray(c.vertices).mean(axis=0) if getattr(c, "vertices", None) is not None else np.zeros(3)
+                if mcls == "CylinderSegment":
+                    r1, r2, h, p1, p2 = c.dimension
+                    centre = np.array([(r1 + r2) / 2 * np.cos(np.radians((p1 + p2) / 2)), (r1 + r2) / 2 * np.sin(np.radians((p1 + p2) / 2)), 0.0])
+                inside_pts.append(centre + np.array([4.0 * j, 0, 0]))
+            if mcls == "TriangularMesh" and (force_mesh or rng.random() < 0.6):
+                # different meshes with equal face counts that agree in most coordinate slots: the prototype stretched
+                # along one axis; each observer is inside its own body but outside the previous (shorter) one
+                ax = rng.randrange(3)
+                v0 = np.asarray(proto.vertices)
+                half = np.abs(v0[:, ax]).max()
+                srcs, inside_pts = [], []
+                for j in range(rng.choice([2, 3, 4])):
+                    vj = v0.copy()
+                    vj[:, ax] *= (1 + j)
+                    srcs.append(magpy.magnet.TriangularMesh(vertices=vj, faces=proto.faces, polarization=nps.uniform(-1, 1, 3), position=(6.0 * j, 0, 0)))
+                    p = np.zeros(3)
+                    p[ax] = 0.8 * (1 + j) * half
+                    inside_pts.append(p + np.array([6.0 * j, 0, 0]))
+            if rng.random() < 0.5:
+                srcs.insert(rng.randrange(len(srcs) + 1), make(rng.choice(CLASSES), nps, path=1))
         nk = rng.choice([1, 1, 2])
         shape = rng.choice([(3,), (2, 3), (1, 1, 3)])
         sens = [magpy.Sensor(position=far_points(nps, rng.choice([1, 2, 3]), lo=4, hi=8), pixel=nps.uniform(-0.3, 0.3, shape),
                              orientation=R.random(rng=nps)) for _ in range(nk)]
+        if inside_pts:
+            shape = (len(inside_pts), 3)
+            sens = [magpy.Sensor(pixel=np.array(inside_pts) + nps.uniform(-0.01, 0.01, (len(inside_pts), 3)))]
+            nk = 1
         field = rng.choice(["B", "H", "J", "M"])
         get = getattr(magpy, "get" + field)
         out = get(srcs, sens, squeeze=False)
